@@ -14,6 +14,20 @@ theorem tl_decode_encode (S : Schema) (hwf : WFSchema S) (t : Ty) (v : Val) (bs 
     decode S fuel t (bs ++ rest) = .ok (v, rest) :=
   (roundtrip_all S hwf).1 t v bs rest fuel henc hfuel
 
+/-- the encoder is defined exactly on the well-typed values: `hasType` (ranges, lengths, declared constructors,
+conditional fields present iff their flag bit is set) is the typing judgement `v : t`, stated without any byte layout -/
+theorem tl_encode_defined_iff_typed (S : Schema) (t : Ty) (v : Val) : (encode S t v).isSome = hasType S t v :=
+  (encode_isSome_iff_hasType S).1 t v
+
+/-- **Round trip in the form `WFSchema S → v : t → decode (encode v ++ rest) = ok (v, rest)`.** -/
+theorem tl_decode_encode_typed (S : Schema) (hwf : WFSchema S) (t : Ty) (v : Val) (hty : hasType S t v = true) :
+    ∃ bs, encode S t v = some bs ∧
+      ∀ rest fuel, v.depth ≤ fuel → decode S fuel t (bs ++ rest) = .ok (v, rest) := by
+  have h := tl_encode_defined_iff_typed S t v
+  rw [hty] at h
+  obtain ⟨bs, hbs⟩ := Option.isSome_iff_exists.mp h
+  exact ⟨bs, hbs, fun rest fuel hf => tl_decode_encode S hwf t v bs rest fuel hbs hf⟩
+
 /-- round trip of the fields of one constructor under the flags seen so far -/
 theorem tl_fields_decode_encode (S : Schema) (hwf : WFSchema S) (fields : List Field) (env : Env) (vs : List Val)
     (bs rest : Bytes) (fuel : Nat) (henc : encodeFields S fields env vs = some bs) (hfuel : depthList vs ≤ fuel) :
